@@ -24,7 +24,7 @@ TBegin == /\ IsEvent("Init")
           /\ LET e == TraceLog[l] IN
              /\ nonce' = <<e.st.nonce[1], e.st.nonce[2]>> /\ bal' = <<e.st.bal[1], e.st.bal[2]>>
              /\ pool' = e.pool /\ gu' = 0 /\ gr' = 0 /\ mode' = e.mode /\ dead' = FALSE
-             /\ last' = [kind |-> "none"] /\ hist' = <<>> /\ UNCHANGED sig
+             /\ last' = [kind |-> "none"] /\ hist' = <<>> /\ ver' = e.ver /\ UNCHANGED sig
 
 ConcOf(e) == [s |-> e.tx.s, nonce |-> e.tx.nonce, price |-> e.tx.price, limit |-> e.tx.limit, value |-> e.tx.value,
               to |-> e.tx.to, pay |-> e.tx.pay, intr |-> Intrinsic(e.tx.to, e.tx.nz, e.tx.z), mv |-> e.tx.mv]
@@ -32,8 +32,9 @@ ConcOf(e) == [s |-> e.tx.s, nonce |-> e.tx.nonce, price |-> e.tx.price, limit |-
 \* the logged execution outcome; the refund is what the sender was not charged
 OutOf(e) == LET failed == e.rc.status = 0
                 moved == IF failed THEN 0 ELSE e.tx.mv
-                paid == e.pre.bal[e.tx.s] - e.post.bal[e.tx.s] - moved IN
-            [g |-> e.rc.gas, failed |-> failed, r |-> e.rc.gas - (paid \div e.tx.price)]
+                paid == e.pre.bal[e.tx.s] - e.post.bal[e.tx.s] - moved
+                consumed == IF e.tx.to = "staking" /\ failed /\ ver < 4 THEN Intrinsic(e.tx.to, e.tx.nz, e.tx.z) ELSE e.rc.gas IN
+            [g |-> e.rc.gas, failed |-> failed, r |-> consumed - (paid \div e.tx.price)]
 
 KindOf(e) == CASE e.err = "" -> "applied"
                [] e.err \in {"nonce_low", "nonce_high", "gas_funds", "gas_pool"} -> "refused"
@@ -43,7 +44,7 @@ ReasonOf(e) == CASE e.err \in {"nonce_low", "nonce_high"} -> "nonce" [] e.err = 
 
 TApply == /\ IsEvent("Apply")
           /\ LET e == TraceLog[l]  t == ConcOf(e) IN
-             /\ mode = e.mode
+             /\ mode = e.mode /\ ver = e.ver
              /\ IF e.err = "" THEN OutcomeAllowed(t, OutOf(e)) /\ ApplyWith(t, e.cls, {OutOf(e)})
                 ELSE ApplyWith(t, e.cls, {})
              /\ last'.kind = KindOf(e)
@@ -61,10 +62,17 @@ TResolve == /\ IsEvent("Resolve")
                /\ sig' = s1
                /\ (s1.res[Len(s1.res)].ans = "same") <=> (e.res = "same")
                /\ (s1.res[Len(s1.res)].ans = "err") => (e.res = "err")
-            /\ UNCHANGED <<nonce, bal, pool, gu, gr, mode, dead, last, hist>>
+            /\ UNCHANGED <<nonce, bal, pool, gu, gr, mode, dead, last, hist, ver>>
+
+\* V sweep: the answer for every presented V is the one YouSigner.Sender's rule gives
+TSenderV == /\ IsEvent("SenderV")
+            /\ LET e == TraceLog[l]  a == RecoverV(e.net, e.v, e.orig) IN
+               /\ (a = "same") <=> (e.res = "same")
+               /\ (a = "err") => (e.res = "err")
+            /\ UNCHANGED vars
 
 TInit == Init /\ l = 1 /\ TLCSet(1, 0)
-TNext == TReset \/ TBegin \/ TApply \/ TResolve
+TNext == TReset \/ TBegin \/ TApply \/ TResolve \/ TSenderV
 TSpec == TInit /\ [][TNext]_tvars
 
 HighWater == /\ TLCSet(1, IF TLCGet(1) < l THEN l ELSE TLCGet(1))
